@@ -757,6 +757,7 @@ impl Engine for ByzSim {
             "qbase::frame::FrameReader (decoder of every forged frame)",
             "qcongestion::ArcCC (on_ack_rcvd, on_pkt_sent, on_pkt_rcvd, need_ack, do_tick)",
             "qrecovery::journal::{ArcSentJournal, ArcRcvdJournal}",
+            "qconnection::space::{AckInitialSpace, AckHandshakeSpace, AckDataSpace}::recv_frame (hook H5; on a journal with the fixture's packet numbers, trivial packets)",
             "qbase::cid::{ArcLocalCids, ArcRemoteCids, ArcCidCell}",
             "qinterface::component::route::{QuicRouter, QuicRouterRegistry}",
             "qrecovery::streams::DataStreams (Incoming/Outgoing, Reader/Writer, listener)",
